@@ -45,8 +45,13 @@ def recipe(c: Check):
                 c.broken.append(dict(kind="coverage", name="pool driver never performed %s" % k, detail=str(dist)))
     st2 = c.run_driver("handoff", q(c.tier, 24, 120), shards=1)
     if st2:
+        hmon = c.cov.get("coq_counters", {}).get("handoff", {}).get("HMON", 0)
+        if hmon != 0:
+            c.failures.append(dict(key="monitor:handoff", driver="handoff",
+                                   what="C11_holds fails on %d observed hand-off trace(s): a user connection open with no peer" % hmon,
+                                   case="see mismatches of C11_holds in the handoff case shard"))
         d2 = st2.get("distribution", {})
-        for k in ("group-member-v1", "gfate10", "gfate11", "gfate2"):
+        for k in ("group-member-v1", "gfate10", "gfate11", "gfate2", "vhost-queue"):
             if d2.get(k, 0) <= 0:
                 c.broken.append(dict(kind="coverage", name="handoff driver never reached %s" % k, detail=str(d2)))
     st4 = c.run_driver("sendfault", q(c.tier, 2, 8), shards=1)
@@ -58,6 +63,15 @@ def recipe(c: Check):
                                    case="see mismatches of C11_holds in the sendfault case shard"))
         if scnt.get("NWFAIL", 0) <= 0:
             c.broken.append(dict(kind="coverage", name="sendfault driver produced no write-fault case", detail=str(scnt)))
+    st6 = c.run_driver("legacyini", q(c.tier, 4, 12), shards=1)
+    lcnt = c.cov.get("coq_counters", {}).get("legacyini", {})
+    if st6:
+        if lcnt.get("LMON", 0) != 0:
+            c.failures.append(dict(key="monitor:legacyini", driver="legacyini",
+                                   what="C11_holds fails on %d trace(s) of a server configured from a legacy ini: advance requests above min(client, configured max)" % lcnt.get("LMON"),
+                                   case="see mismatches of C11_holds in the legacyini case shard"))
+        if st6.get("cases", 0) <= 0:
+            c.broken.append(dict(kind="coverage", name="legacyini driver produced no case", detail=str(st6)))
     st5 = c.run_driver("compress", q(c.tier, 3, 10), shards=1)
     ccnt = c.cov.get("coq_counters", {}).get("compress", {})
     if st5:
@@ -89,6 +103,9 @@ def recipe(c: Check):
              "handoff driver also: two group members, a user connection pending in the hand-off, member 0 (or both) closed, then the members' "
              "Accept (ambiguous select: observed outcome = oracle of the model). compress driver: http proxy + tcp proxy with useCompression, "
              "overlapping users, the scripted client unwraps snappy and records on which work connection each user's payload arrives. "
+             "handoff driver also: 2-4 TLS users waiting in the hand-off of a real HTTPSMuxer, a of them accepted, then Listener.Close: the rest must be closed. "
+             "legacyini driver: frps from a legacy ini (real loader + validation) with max_pool_count 1/2/3/7 (and max_ports_per_client), client poolCount above it: "
+             "advance ReqWorkConn and cap(workConnCh) against the value written in the file; same value as toml through the same loader. "
              "sendfault driver: a session registered over a pipe whose server-side writes start failing while reads stay open, then 104-123 users "
              "(more than sendCh holds) with no work connection delivered: every one must be closed by userConnTimeout. "
              "visitor driver: real InternalListener under random orders of PutConn/Close/Accept (incl. the 128-slot queue overflowing), and a "
